@@ -1,0 +1,262 @@
+//go:build verif
+
+package jd
+
+// Deterministic pseudo-random document pairs for the bounded stand-ins: pair k is a random
+// document a (arrays up to length 7 with repeated elements, nesting up to depth 4, keys a..c)
+// and a document b obtained from a by one to three random edits (insert, delete, duplicate, swap,
+// replace, re-key), plus a target c obtained from a by one further edit. The sequence depends only
+// on k, so a replayed input is reproducible; the tier decides how many pairs are drawn.
+
+type verifRng struct{ s uint64 }
+
+func (r *verifRng) next() uint64 {
+	r.s += 0x9e3779b97f4a7c15
+	z := r.s
+	z = (z ^ (z >> 30)) * 0xbf58476d1ce4e5b9
+	z = (z ^ (z >> 27)) * 0x94d049bb133111eb
+	return z ^ (z >> 31)
+}
+
+func (r *verifRng) intn(n int) int {
+	if n <= 0 {
+		return 0
+	}
+	return int(r.next() % uint64(n))
+}
+
+func verifRandScalar(r *verifRng, nulls bool) JsonNode {
+	switch r.intn(9) {
+	case 0, 1:
+		return jsonNumber(1)
+	case 2, 3:
+		return jsonNumber(2)
+	case 4:
+		return jsonNumber(3)
+	case 5:
+		return jsonString("a")
+	case 6:
+		return jsonString("b")
+	case 7:
+		return jsonBool(true)
+	}
+	if nulls {
+		return jsonNull(nil)
+	}
+	return jsonNumber(3)
+}
+
+func verifRandDoc(r *verifRng, depth int, nulls bool) JsonNode {
+	k := r.intn(10)
+	if depth <= 0 || k < 4 {
+		return verifRandScalar(r, nulls)
+	}
+	if k < 8 {
+		n := r.intn(7)
+		l := make(jsonArray, 0, n)
+		for i := 0; i < n; i++ {
+			if len(l) > 0 && r.intn(4) == 0 {
+				l = append(l, verifCloneNode(l[r.intn(len(l))])) // repeat an earlier element
+			} else {
+				l = append(l, verifRandDoc(r, depth-1, nulls))
+			}
+		}
+		return l
+	}
+	o := jsonObject{}
+	for _, key := range []string{"a", "b", "c"} {
+		if r.intn(2) == 0 {
+			o[key] = verifRandDoc(r, depth-1, nulls)
+		}
+	}
+	return o
+}
+
+// verifRandEdit applies one random edit somewhere in (a copy of) n.
+func verifRandEdit(r *verifRng, n JsonNode, nulls bool) JsonNode {
+	switch v := n.(type) {
+	case jsonArray:
+		l := append(jsonArray{}, v...)
+		// descend into a container element more often than not, so that edits land deep
+		var containers []int
+		for i, x := range l {
+			switch x.(type) {
+			case jsonArray, jsonObject:
+				containers = append(containers, i)
+			}
+		}
+		if len(containers) > 0 && r.intn(10) < 6 {
+			i := containers[r.intn(len(containers))]
+			l[i] = verifRandEdit(r, l[i], nulls)
+			return l
+		}
+		if len(l) > 0 && r.intn(4) == 0 {
+			i := r.intn(len(l))
+			l[i] = verifRandEdit(r, l[i], nulls)
+			return l
+		}
+		switch r.intn(6) {
+		case 0: // insert
+			i := r.intn(len(l) + 1)
+			l = append(l[:i], append(jsonArray{verifRandDoc(r, 1, nulls)}, l[i:]...)...)
+		case 1: // delete
+			if len(l) > 0 {
+				i := r.intn(len(l))
+				l = append(l[:i], l[i+1:]...)
+			}
+		case 2: // duplicate an element somewhere else
+			if len(l) > 0 {
+				x := verifCloneNode(l[r.intn(len(l))])
+				i := r.intn(len(l) + 1)
+				l = append(l[:i], append(jsonArray{x}, l[i:]...)...)
+			}
+		case 3: // swap neighbours
+			if len(l) > 1 {
+				i := r.intn(len(l) - 1)
+				l[i], l[i+1] = l[i+1], l[i]
+			}
+		case 4: // replace
+			if len(l) > 0 {
+				l[r.intn(len(l))] = verifRandDoc(r, 1, nulls)
+			}
+		case 5: // drop a tail or a head
+			if len(l) > 1 {
+				if r.intn(2) == 0 {
+					l = l[:len(l)-1-r.intn(len(l)-1)]
+				} else {
+					l = l[1+r.intn(len(l)-1):]
+				}
+			}
+		}
+		return l
+	case jsonObject:
+		o := jsonObject{}
+		for k, x := range v {
+			o[k] = x
+		}
+		keys := []string{"a", "b", "c"}
+		var containers []string
+		for _, k := range keys {
+			switch o[k].(type) {
+			case jsonArray, jsonObject:
+				containers = append(containers, k)
+			}
+		}
+		if len(containers) > 0 && r.intn(10) < 6 {
+			k := containers[r.intn(len(containers))]
+			o[k] = verifRandEdit(r, o[k], nulls)
+			return o
+		}
+		k := keys[r.intn(3)]
+		if x, ok := o[k]; ok {
+			switch r.intn(3) {
+			case 0:
+				delete(o, k)
+			case 1:
+				o[k] = verifRandEdit(r, x, nulls)
+			default:
+				o[k] = verifRandDoc(r, 1, nulls)
+			}
+		} else {
+			o[k] = verifRandDoc(r, 1, nulls)
+		}
+		return o
+	}
+	if r.intn(5) == 0 {
+		return verifRandDoc(r, 2, nulls)
+	}
+	return verifRandScalar(r, nulls)
+}
+
+// verifRandTriple: (a, b, c) number k; every fourth triple is a flat array over {1,2,3}.
+func verifRandTriple(k int, nulls bool) (JsonNode, JsonNode, JsonNode) {
+	r := &verifRng{s: uint64(k)*0x632be59bd9b4e019 + 12345}
+	r.next()
+	var a JsonNode
+	if k%4 == 0 {
+		n := 2 + r.intn(7)
+		l := make(jsonArray, n)
+		for i := range l {
+			l[i] = jsonNumber(1 + r.intn(3))
+		}
+		a = l
+	} else {
+		a = verifRandDoc(r, 3, nulls)
+		if k%4 == 1 {
+			// put the document under a path of length 3 .. 5
+			for d := 0; d < 3+r.intn(3); d++ {
+				if r.intn(2) == 0 {
+					a = jsonObject{"a": a}
+				} else {
+					a = jsonArray{jsonNumber(9), a}
+				}
+			}
+		}
+	}
+	b := verifCloneNode(a)
+	for i := 0; i < 1+r.intn(3); i++ {
+		b = verifRandEdit(r, b, nulls)
+	}
+	c := verifRandEdit(r, verifCloneNode(a), nulls)
+	return a, verifCloneNode(b), verifCloneNode(c)
+}
+
+func verifRandCount(tier int) int {
+	if tier >= 1 {
+		return 30000
+	}
+	return 3000
+}
+
+func verifRandA(tier int) []JsonNode {
+	out := make([]JsonNode, verifRandCount(tier))
+	for k := range out {
+		out[k], _, _ = verifRandTriple(k, true)
+	}
+	return out
+}
+
+func verifRandB(tier int) []JsonNode {
+	out := make([]JsonNode, verifRandCount(tier))
+	for k := range out {
+		_, out[k], _ = verifRandTriple(k, true)
+	}
+	return out
+}
+
+func verifRandC(tier int) []JsonNode {
+	out := make([]JsonNode, verifRandCount(tier))
+	for k := range out {
+		_, _, out[k] = verifRandTriple(k, true)
+	}
+	return out
+}
+
+// null-free variants (MERGE is only claimed for null-free documents)
+func verifRandANF(tier int) []JsonNode {
+	out := make([]JsonNode, verifRandCount(tier))
+	for k := range out {
+		out[k], _, _ = verifRandTriple(k, false)
+	}
+	return out
+}
+
+func verifRandBNF(tier int) []JsonNode {
+	out := make([]JsonNode, verifRandCount(tier))
+	for k := range out {
+		_, out[k], _ = verifRandTriple(k, false)
+	}
+	return out
+}
+
+// ---------------------------------------------------------------------
+// The v1 property-level statements over the random pairs (see verifV1RoundTrip, verifV1Patch,
+// verifV1Merge); each wrapper repeats an existing stand-in so that it can carry its own universe.
+
+func verifV1RandRoundTrip(a, b JsonNode, metadata []Metadata) string {
+	return verifV1RoundTrip(a, b, metadata)
+}
+
+func verifV1RandPatch(a, b JsonNode) string { return verifV1Patch(a, b) }
+
+func verifV1RandMerge(a, b JsonNode) string { return verifV1Merge(a, b) }
